@@ -245,7 +245,7 @@ def mkp(i, rnd, strings=STRINGS, nums=NUMS):
     return Point(time=T0 + timedelta(seconds=rnd.choice([0, 1, 1, 2, 5]), microseconds=rnd.choice([0, 1, 999999])), measurement=rnd.choice(strings[:7] + ["m0", "m1"]), tags=tags, fields=fields)
 
 
-SAFE = ["x", "y", "a b", "m0", "m1", "k", "c\rr\r\nn"]  # the last one: CR and CRLF inside a value (what newline translation would destroy)
+SAFE = ["x", "y", "a b", "m0", "m1", "k", "c\rr\r\nn", "ut_f_k", "x_tag__field_y"]  # CR and CRLF inside a value (what newline translation would destroy); key-prefix text in the middle of a key (what stripping the prefix by replace() would destroy)
 
 
 def safe_point(rnd):
